@@ -6,15 +6,18 @@ META = {
     'functions': ['enspara.cluster.kcenters.kcenters', 'enspara.cluster.kcenters._kcenters_iteration',
                   'enspara.cluster.kcenters.KCenters.fit',
                   'enspara.cluster.util.assign_to_nearest_center', 'enspara.cluster.util.find_cluster_centers'],
-    'bounds': {'quick': 'N<=5 frames, n_clusters<=3 (and N+1), symbolic radius cut-off, 0..2 symbolic initial centers; '
+    'bounds': {'quick': 'N<=5 frames, n_clusters<=3 (and N+1), symbolic radius cut-off, 0..2 symbolic initial centers taken from the data and '
+                        '1..2 initial centers that are NOT frames of the data (N<=4); '
                         '2-approximation over all k-subsets for N<=5',
                'thorough': 'N<=7 frames, n_clusters<=4, 0..3 initial centers; 2-approximation N<=6'},
     'stubs': ['metric = uninterpreted function D (zero diagonal, symmetric, positive; triangle inequality for the '
               'shortcut / approximation jobs)', 'logging disabled'],
     'assumptions': ['exact real arithmetic (float rounding outside the claim)',
                     'points pairwise distinct (D>0 off the diagonal)',
-                    'frames observed only through len/indexing/metric (token abstraction)'],
+                    'frames observed only through len/indexing/metric (token abstraction)',
+                    'off-data initial centers: every initial center attracts at least one frame'],
     'outside': ['random_first_center=True (NotImplementedError by design)', '2-approximation for warm starts',
+                'initial centers that attract no frame (they get no center index on this code base: seen, not claimed)',
                 'N beyond the bound', "metric='rmsd' on md.Trajectory"],
 }
 
